@@ -1,5 +1,5 @@
 # C14 - template substitution replaces exactly the placeholders and nothing else (Tier A: in-process).
-# Bounded exhaustive: every template made of <= 3 (quick) / <= 4 (thorough) fragments of a 29-fragment alphabet
+# Bounded exhaustive: every template made of <= 3 (quick) / <= 4 (thorough) fragments of a 30-fragment alphabet
 # (de-duplicated on the resulting text) x 100 data sets (A, B each bound to one of 10 values) x formats
 # {meson, cmake, cmake@}, the real do_conf_str executed on every element.  Four oracles:
 #  (1) marker differential (meson format): the output for real values must equal the output obtained with inert
@@ -28,7 +28,9 @@ FRAGS = ['@A@', '@B@', '@U@', '@', '@@', '\\@', '\\\\', '\\\\\\', '\\@A\\@', '\\
          '#mesondefine A', '#mesondefine U', ' # mesondefine A', '#mesondefine A B',
          '#cmakedefine A', '#cmakedefine01 A', '#cmakedefine A @B@', 'x', ' ', '\n', '\r\n',
          # non-ASCII "word" characters are not name characters: these are plain text in every format
-         '@\u00e9@', '\\@\u00e9\\@']
+         '@\u00e9@', '\\@\u00e9\\@',
+         # the ${VAR} spelling in the value of a define: a placeholder in 'cmake', plain text in 'cmake@' (@ONLY)
+         '#cmakedefine A ${B}']
 VALUES = ['v', '', '@B@', '\\\\@B@', '${B}', 'x y', 10, 0, True, False]
 DATASETS = [(a, b) for a in VALUES for b in VALUES]
 FORMATS = ['meson', 'cmake', 'cmake@']
@@ -244,12 +246,15 @@ def _analyse(line, fmt):
     at_only = fmt == 'cmake@'
     if body.startswith('#cmakedefine'):
         m = _CMAKEDEF.match(body)
-        if not m or (m.group(1) and m.group(3)) or (m.group(3) and m.group(3)[0] == '$' and at_only):
+        if not m or (m.group(1) and m.group(3)):
             return ('unspec', 'cmake:cmakedefine-form')
         arg = None
         if m.group(3):
             src = m.group(3)
-            arg = ('v', src[1:-1] if src[0] == '@' else src[2:-1], src)
+            if src[0] == '$' and at_only:
+                arg = ('lit', None, src)       # @ONLY: "restrict variable replacement to references of the form @VAR@"
+            else:
+                arg = ('v', src[1:-1] if src[0] == '@' else src[2:-1], src)
         variant = 'cmake01' if m.group(1) else 'cmake'
         return ('define', variant, m.group(2), arg, eol, frozenset({variant + '-define'} | ({'define-arg'} if arg else set()) | _eoltags(eol)))
     if 'mesondefine' in body:
@@ -322,6 +327,8 @@ def render_define(spec, fmt, data):
         return ['/* #undef %s */' % name, '/* undef %s */' % name], set(), None
     if arg is None:
         return ['#define %s' % name], set(), None
+    if arg[0] == 'lit':
+        return ['#define %s %s' % (name, arg[2])], set(), None
     if arg[1] not in data:
         return ['#define %s' % name, '#define %s ' % name], {arg[1]}, None
     r, why = render_value(data[arg[1]], fmt)
@@ -1013,7 +1020,7 @@ def main():
     if ck.args.replay:
         return replay(ck)
     maxlen = ck.q(3, 4)
-    ck.require(len(FRAGS) == 29 and len(set(FRAGS)) == 29, 'alphabet is not 29 distinct fragments')
+    ck.require(len(FRAGS) == 30 and len(set(FRAGS)) == 30, 'alphabet is not 30 distinct fragments')
     ck.require(not any('\r' in f.replace('\r\n', '') for f in FRAGS), 'lone CR in the alphabet')
     ncal = calibrate(ck)
     ck.part('calibration', pinned_expectations_reproduced_by_reference=ncal)
@@ -1081,7 +1088,7 @@ def main():
     ck.sample({'template': TEMPLATES[nt - 7][0], 'fragments': [FRAGS[i] for i in TEMPLATES[nt - 7][1]], 'formats': FORMATS})
     ck.finish(evaluations=tot.get('evaluations', 0) + nfile + nhead + ntb,
               distinct_nontrivial=len(classes) + hclasses,
-              rule='every sequence of <= %d fragments from the 29-fragment alphabet (%d sequences, %d distinct texts) x 100 data sets '
+              rule='every sequence of <= %d fragments from the 30-fragment alphabet (%d sequences, %d distinct texts) x 100 data sets '
                    '(A,B in %r) x formats %s through the real do_conf_str (+ marker-structure runs for the meson format); do_conf_file on all '
                    'texts <= 2 fragments; dump_conf_header on all ordered key tuples <= 2 x values x description and all permutations of '
                    '3..%d keys x {c,nasm,json} x macro guard; tier B: all texts <= 2 fragments x data x formats through configure_file() of a real meson setup. distinct_nontrivial = number of distinct (format, set of reference line '
